@@ -22,7 +22,9 @@ def leadingInt : Bytes → Nat → Option (Nat × Bytes)
     else some (x, c :: rest)
 
 /-- `leadingFraction`: consumes `[0-9]*`, returns (x, number of accepted digits, rest).
-`scale = 10^digits` (as float64; exact up to 10^22, and at most 19 digits are ever accepted). -/
+Go keeps `scale` as a float64 multiplied by 10 per accepted digit (`scale *= 10`): exact up to 10^22, but leading
+zeros are accepted digits too, so more than 22 digits can be accepted ("0.00000009999999999999999999s") and the
+product is then the ITERATED rounded one, not the correctly rounded 10^digits — see `scalePow`. -/
 def leadingFraction : Bytes → Nat → Nat → Bool → (Nat × Nat × Bytes)
   | [], x, k, _ => (x, k, [])
   | c :: rest, x, k, ovf =>
@@ -102,6 +104,11 @@ theorem leadingFraction_le : ∀ (s : Bytes) (x k : Nat) (o : Bool),
           · have := ih (x * 10 + (c - 48)) (k+1) false; simp; omega
     · simp
 
+/-- `scale` after `k` accepted digits: `1` multiplied by `10` in float64 `k` times. -/
+def scalePow : Nat → F64
+  | 0 => F64.ofNat 1
+  | k+1 => F64.mul (scalePow k) (F64.ofNat 10)
+
 /-- The main loop of `ParseDuration` over the remaining input, accumulating `d`.
 Structural recursion on a fuel argument (`parseLoop` supplies `len+1`, and every iteration
 consumes at least the non-empty unit, so the fuel never runs out: `parseLoop_fuel_irrelevant`). -/
@@ -132,7 +139,7 @@ def parseLoopF : Nat → Bytes → Nat → Outcome Nat
         let v2 : Option Nat :=
           if f > 0 then
             -- v += uint64(float64(f) * (float64(unit) / scale))
-            let fl := F64.mul (F64.ofNat f) (F64.div (F64.ofNat unit) (F64.ofNat (10 ^ k)))
+            let fl := F64.mul (F64.ofNat f) (F64.div (F64.ofNat unit) (scalePow k))
             let add := F64.toUInt64 fl
             let v' := (v1 + add.toNat) % two64
             if v' > p63 then none else some v'
